@@ -717,3 +717,8 @@ LEVEL_NOTE = (LEVEL_NOTE + " Model/TzConvert.v is no longer tied to /repo by pin
               "pendulum's timezone glue from /repo on every run and the model_is_code_* theorems prove the hand model equal to it "
               "(native operations as primitives tied to CPython by the spec_is_stdlib_* theorems; from_timestamp, instance, set/on/at/replace "
               "remain hand-written + pinned).")
+
+
+# ---- second batch of model = code theorems (appended) ----
+TRUSTED = [t for t in TRUSTED] + ['model_is_code_set / _set_tz / _on / _at / _replace / _replace_tzinfo / _naive: DateTime.set, on, at, replace (both forms: tzinfo not passed / passed) and naive are translated from /repo (Gen/TzGlue.v) and proved EQUAL to the step functions of Model/WallHistory.v (hstep OSetWall, OSetTz, OOn, OAt, OSetFold, OReplaceNoTz, ODropTz): they read the fold of the instance exactly as the history model says; the proof of Timezone.convert = convert_naive is robust to meaning-preserving rewrites of the source (b < a for a > b, reordered conjuncts, swapped conditional branches: checked by refactoring trials)']
+LEVEL_NOTE = LEVEL_NOTE + " " + 'model_is_code_set / _set_tz / _on / _at / _replace / _replace_tzinfo / _naive: DateTime.set, on, at, replace (both forms: tzinfo not passed / passed) and naive are translated from /repo (Gen/TzGlue.v) and proved EQUAL to the step functions of Model/WallHistory.v (hstep OSetWall, OSetTz, OOn, OAt, OSetFold, OReplaceNoTz, ODropTz): they read the fold of the instance exactly as the history model says; the proof of Timezone.convert = convert_naive is robust to meaning-preserving rewrites of the source (b < a for a > b, reordered conjuncts, swapped conditional branches: checked by refactoring trials)' + "."
